@@ -1,7 +1,7 @@
 (* C11 — every sentence of the CDCN grammar is accepted with its intended meaning.
    Statements only; the proofs are in LiteralProofs.v, ParserProofs.v, CdcnProofs.v, Grammar.v. *)
 From Coq Require Import String.
-From Verif Require Import Base Params Value Lexer Literals Parser LexerProofs ParserProofs CdcnProofs LiteralProofs ParseRun Grammar LexBridge.
+From Verif Require Import Base Params Value Lexer Literals Parser LexerProofs ParserProofs CdcnProofs LiteralProofs ParseRun Grammar LexBridge LexBridge2.
 Close Scope string_scope.
 Open Scope Z_scope.
 
@@ -76,8 +76,8 @@ Proof. exact parser_sound_partial. Qed.
 
 (* character level, per token class (the bridge to the formatter's text, C10): a well-formed
    text of the class followed by a separator (end, space, newline, delimiter) is scanned as
-   exactly that class with exactly that length.  Partial: floats, complex numbers, runes and
-   strings are covered by the correspondence only. *)
+   exactly that class with exactly that length.  Partial: complex literals and the unicode
+   escapes (x, u, U forms) inside runes and strings are covered by the correspondence only. *)
 Theorem C11_first_integer : forall ds rest, int_text ds -> sep_start rest ->
   try_types scan_order_t (ds ++ rest) = Some (TInteger, length ds).
 Proof. exact first_integer. Qed.
@@ -93,6 +93,18 @@ Proof. exact first_delim_not_paren. Qed.
 Theorem C11_first_open_paren_before_type : forall name rest, In name type_names ->
   try_types scan_order_t (40 :: zs name ++ rest) = Some (TDelimiter, 1%nat).
 Proof. exact first_open_paren_type. Qed.
+Theorem C11_first_float : forall txt rest, float_text txt -> sep_start rest ->
+  try_types scan_order_t (txt ++ rest) = Some (TFloat, length txt).
+Proof. exact first_float. Qed.
+Theorem C11_first_rune_plain : forall c rest, c <> 39 -> c <> 10 -> c <> 92 ->
+  try_types scan_order_t (39 :: c :: 39 :: rest) = Some (TRune, 3%nat).
+Proof. exact first_rune_plain. Qed.
+Theorem C11_first_rune_simple_escape : forall e rest, is_simple_esc e = true ->
+  try_types scan_order_t (39 :: 92 :: e :: 39 :: rest) = Some (TRune, 4%nat).
+Proof. exact first_rune_simple_escape. Qed.
+Theorem C11_first_string_escaped : forall ps rest, forallb piece_ok ps = true ->
+  try_types scan_order_t (34 :: flat ps ++ 34 :: rest) = Some (TString, (2 + length (flat ps))%nat).
+Proof. exact first_string_escaped. Qed.
 Theorem C11_first_words : forall rest,
   try_types scan_order_t (zs "true" ++ rest) = Some (TBoolean, 4%nat) /\
   try_types scan_order_t (zs "false" ++ rest) = Some (TBoolean, 5%nat) /\
@@ -139,4 +151,8 @@ Print Assumptions C11_first_hexadecimal.
 Print Assumptions C11_first_type.
 Print Assumptions C11_first_delimiter.
 Print Assumptions C11_first_open_paren_before_type.
+Print Assumptions C11_first_float.
+Print Assumptions C11_first_rune_plain.
+Print Assumptions C11_first_rune_simple_escape.
+Print Assumptions C11_first_string_escaped.
 Print Assumptions C11_first_words.
